@@ -7,6 +7,7 @@ use rkyv::{Archive, Deserialize, Serialize};
 #[repr(C)]
 #[derive(Serialize, Deserialize, Archive, Debug, Clone, PartialEq, Eq)]
 #[archive(check_bytes)]
+#[archive_attr(derive(Debug))]
 pub struct Fixed {
     pub a: u32,
     pub b: u64,
@@ -17,6 +18,7 @@ pub struct Fixed {
 #[repr(C)]
 #[derive(Serialize, Deserialize, Archive, Debug, Clone, PartialEq, Eq)]
 #[archive(check_bytes)]
+#[archive_attr(derive(Debug))]
 pub struct Text {
     pub s: String,
 }
@@ -24,6 +26,7 @@ pub struct Text {
 #[repr(C)]
 #[derive(Serialize, Deserialize, Archive, Debug, Clone, PartialEq, Eq)]
 #[archive(check_bytes)]
+#[archive_attr(derive(Debug))]
 pub struct Blob {
     pub id: u64,
     pub data: Vec<u8>,
@@ -32,6 +35,7 @@ pub struct Blob {
 #[repr(C)]
 #[derive(Serialize, Deserialize, Archive, Debug, Clone, PartialEq, Eq)]
 #[archive(check_bytes)]
+#[archive_attr(derive(Debug))]
 pub struct Nested {
     pub name: String,
     pub inner: Option<Blob>,
@@ -43,6 +47,7 @@ pub struct Nested {
 #[repr(C)]
 #[derive(Serialize, Deserialize, Archive, Debug, Clone, PartialEq, Eq)]
 #[archive(check_bytes)]
+#[archive_attr(derive(Debug))]
 pub struct Unit;
 
 /// Roots with an alignment below 4 and a size that is not a multiple of 4 (the frame's trailer then follows a body
@@ -50,6 +55,7 @@ pub struct Unit;
 #[repr(C)]
 #[derive(Serialize, Deserialize, Archive, Debug, Clone, PartialEq, Eq)]
 #[archive(check_bytes)]
+#[archive_attr(derive(Debug))]
 pub struct Small {
     pub a: u8,
     pub flag: bool,
@@ -59,6 +65,7 @@ pub struct Small {
 #[repr(C)]
 #[derive(Serialize, Deserialize, Archive, Debug, Clone, PartialEq, Eq)]
 #[archive(check_bytes)]
+#[archive_attr(derive(Debug))]
 pub struct Six {
     pub bytes: [u8; 6],
     pub tail: u16,
